@@ -1131,3 +1131,91 @@ static void run_c18_mig_handler(void)
     sim_count("c18.migration_handler_pending_seen", (uint64_t)MH.pending_seen);
 }
 SIM_WORKLOAD("C18", "migration-handler", run_c18_mig_handler, 2)
+
+/* ---- scenario "keytable-race": two callers set the first values of a work unit at the same
+ * time (the unit itself with ABT_key_set, an external thread with ABT_thread_set_specific), so
+ * one of them creates the unit's key table while the other waits for it; the external thread's
+ * first allocation fails.  The failing call returns an error; the other call, which met no
+ * failure, succeeds and its value is there; the failing call succeeds when retried. ---- */
+static struct {
+    ABT_key k1, k2;
+    ABT_thread t;
+    volatile int go, t_set_done, e_done, t_may_end;
+    int t_rc, e_rc, e_fired;
+} KR;
+static void kr_unit(void *arg)
+{
+    (void)arg;
+    while (!KR.go)
+        ABT_OK(ABT_thread_yield());
+    for (int i = (int)sim_rand_n(SIM_RS_CHAOS, 4); i > 0; i--)
+        sim_yield();
+    KR.t_rc = ABT_key_set(KR.k1, (void *)0x1111);
+    KR.t_set_done = 1;
+    sim_progress();
+    while (!KR.t_may_end)
+        ABT_OK(ABT_thread_yield());
+}
+static void kr_ext(void *arg)
+{
+    (void)arg;
+    while (!KR.go)
+        sim_yield();
+    for (int i = (int)sim_rand_n(SIM_RS_CHAOS, 4); i > 0; i--)
+        sim_yield();
+    sim_alloc_arm(1, SIM_RES_MALLOC);
+    KR.e_rc = ABT_thread_set_specific(KR.t, KR.k2, (void *)0x2222);
+    KR.e_fired = sim_alloc_fired();
+    sim_alloc_arm(0, 0);
+    KR.e_done = 1;
+    sim_progress();
+}
+static void run_c18_keytable_race(void)
+{
+    memset(&KR, 0, sizeof KR);
+    sim_allow_faults((1u << SIM_F_STALL) | (1u << SIM_F_SLOW_NODE) | (1u << SIM_F_TARGET_DELAY));
+    wl_env_swarm();
+    ABT_OK(ABT_init(0, NULL));
+    ABT_xstream xs;
+    ABT_pool p;
+    ABT_OK(ABT_xstream_create(ABT_SCHED_NULL, &xs));
+    ABT_OK(ABT_xstream_get_main_pools(xs, 1, &p));
+    ABT_OK(ABT_key_create(NULL, &KR.k1));
+    ABT_OK(ABT_key_create(NULL, &KR.k2));
+    int rounds = plan_range(1, 3);
+    sim_note("C18 keytable-race rounds=%d ", rounds);
+    for (int r = 0; r < rounds; r++) {
+        KR.go = KR.t_set_done = KR.e_done = KR.t_may_end = 0;
+        ABT_OK(ABT_thread_create(p, kr_unit, NULL, ABT_THREAD_ATTR_NULL, &KR.t));
+        int tid = sim_thread_create(kr_ext, NULL);
+        KR.go = 1;
+        while (!KR.t_set_done || !KR.e_done)
+            ABT_OK(ABT_thread_yield());
+        sim_thread_join(tid);
+        SIM_CHECK(KR.t_rc == ABT_SUCCESS, "fault:spurious-error", "ABT_key_set of the unit itself returned %d although only the other caller's allocation failed", KR.t_rc);
+        void *v = NULL;
+        ABT_OK(ABT_thread_get_specific(KR.t, KR.k1, &v));
+        SIM_CHECK(v == (void *)0x1111, "fault:state-changed", "the value the unit set itself reads back %p", v);
+        if (KR.e_fired) {
+            SIM_CHECK(KR.e_rc != ABT_SUCCESS, "fault:error-swallowed", "ABT_thread_set_specific returned ABT_SUCCESS although its allocation failed");
+            v = (void *)1;
+            ABT_OK(ABT_thread_get_specific(KR.t, KR.k2, &v));
+            SIM_CHECK(v == NULL, "fault:state-changed", "the failed ABT_thread_set_specific left the value %p behind", v);
+            ABT_OK(ABT_thread_set_specific(KR.t, KR.k2, (void *)0x2222)); /* the retry */
+            sim_count("c18.keytable_race_failures", 1);
+        } else
+            SIM_CHECK(KR.e_rc == ABT_SUCCESS, "fault:spurious-error", "ABT_thread_set_specific returned %d although no allocation failed", KR.e_rc);
+        ABT_OK(ABT_thread_get_specific(KR.t, KR.k2, &v));
+        SIM_CHECK(v == (void *)0x2222, "fault:state-changed", "the other caller's value reads back %p", v);
+        KR.t_may_end = 1;
+        ABT_OK(ABT_thread_free(&KR.t));
+        sim_progress();
+    }
+    ABT_OK(ABT_key_free(&KR.k1));
+    ABT_OK(ABT_key_free(&KR.k2));
+    ABT_OK(ABT_xstream_join(xs));
+    ABT_OK(ABT_xstream_free(&xs));
+    ABT_OK(ABT_finalize());
+    sim_ledger_check_empty("after ABT_finalize");
+}
+SIM_WORKLOAD("C18", "keytable-race", run_c18_keytable_race, 2)
